@@ -30,7 +30,7 @@ import (
 // Case is one replayable execution.
 type Case struct {
 	Graph string `json:"graph"` // see Graph.String
-	Prog  string `json:"prog"`  // "R0 D1 C2": CopyReference(obj 0), Redirect(obj 1, fresh), Copy(value of obj 2)
+	Prog  string `json:"prog"`  // "R0 D1 C2 G0": CopyReference(obj 0), Redirect(obj 1, fresh), Copy(value of obj 2), CopyReference(stale reference to obj 0)
 	Src   string `json:"src"`
 	Tgt   string `json:"tgt"`
 }
@@ -39,14 +39,15 @@ func (c Case) key() string { return c.Graph + "|" + c.Prog + "|" + c.Src + "|" +
 
 // space is one bounded product that is enumerated completely.
 type space struct {
-	name   string
-	alpha  alphabet
-	n      int
-	rooted bool // programs: the single calls R0 and C0; every object reachable from object 0
-	depth  int  // otherwise: all programs up to this many calls
-	dangOp bool // the alphabet of calls includes CopyReference(dangling)
-	cfgs   [][2]string
-	verify int // check the source fixture of every verify-th graph
+	name    string
+	alpha   alphabet
+	n       int
+	rooted  bool // programs: the single calls R0 and C0; every object reachable from object 0
+	depth   int  // otherwise: all programs up to this many calls
+	dangOp  bool // the alphabet of calls includes CopyReference(dangling)
+	staleOp bool // ... and CopyReference(stale reference to object j) for every object
+	cfgs    [][2]string
+	verify  int // check the source fixture of every verify-th graph
 }
 
 type found struct {
@@ -68,6 +69,47 @@ type runner struct {
 	execs    atomic.Int64
 	maxReads atomic.Int64
 	hung     atomic.Bool
+
+	// suspicions: failures of the machinery that a defect of the library
+	// under test can cause (a fixture that does not read back, the file part
+	// of the self-test). They do not stop the exploration; see conclude.
+	smu       sync.Mutex
+	suspicion []string
+	nSuspect  int64
+}
+
+// suspect records a failure of the machinery that may be the consequence of
+// a defect in the library.
+func (rn *runner) suspect(msg string) {
+	rn.smu.Lock()
+	rn.nSuspect++
+	if len(rn.suspicion) < 8 {
+		rn.suspicion = append(rn.suspicion, msg)
+	}
+	rn.smu.Unlock()
+}
+
+// conclude decides what the suspicions amount to, after the exploration: if
+// violations were found they are reported (the suspicions are most likely
+// consequences of the same defect; they are listed in the evidence); if not,
+// the run is an infrastructure failure.
+func (rn *runner) conclude() {
+	rn.smu.Lock()
+	defer rn.smu.Unlock()
+	if rn.nSuspect == 0 {
+		return
+	}
+	r := rn.r
+	r.Dim("machinery_failures_attributable_to_the_library", map[string]any{"count": rn.nSuspect, "first": rn.suspicion})
+	if r.NumViolations() > 0 {
+		for _, m := range rn.suspicion {
+			fmt.Println("NOTE (machinery failure, not counted because violations were found):", m)
+		}
+		return
+	}
+	for _, m := range rn.suspicion {
+		r.Infra(m)
+	}
 }
 
 type flight struct {
@@ -160,7 +202,8 @@ func (rn *runner) run(s *source, prog []Op, tgtCfg string) (*execution, bool) {
 	}
 	for _, f := range fs.list {
 		if strings.HasPrefix(f.fp, "infra:") {
-			r.Infra(f.what)
+			rn.suspect(fmt.Sprintf("graph {%s} program {%s} %s>%s: %s", s.g, progString(prog), s.cfg, tgtCfg, f.what))
+			r.Outcome("not-judged:" + f.fp)
 			return ex, false
 		}
 	}
@@ -190,6 +233,11 @@ func opsFor(sp space) []Op {
 	}
 	if sp.dangOp {
 		ops = append(ops, Op{'R', -1})
+	}
+	if sp.staleOp {
+		for j := 0; j < sp.n; j++ {
+			ops = append(ops, Op{'G', j})
+		}
 	}
 	return ops
 }
@@ -295,22 +343,28 @@ func (rn *runner) runSpace(sp space) {
 		}
 		srcs := map[string]*source{}
 		for _, cfg := range sp.cfgs {
-			s := srcs[cfg[0]]
-			if s == nil {
+			s, tried := srcs[cfg[0]]
+			if !tried {
 				var err error
 				s, err = buildSource(g, cfg[0])
 				if err != nil {
-					r.Infra(fmt.Sprintf("cannot build source {%s} %s: %v", g, cfg[0], err))
-					return
-				}
-				if sp.verify > 0 && verifyCtr.Add(1)%int64(sp.verify) == 0 {
+					rn.suspect(fmt.Sprintf("cannot build source {%s} %s: %v", g, cfg[0], err))
+					s = nil
+				} else if sp.verify > 0 && verifyCtr.Add(1)%int64(sp.verify) == 0 {
 					if err := s.verify(); err != nil {
-						r.Infra(fmt.Sprintf("source fixture {%s} %s: %v", g, cfg[0], err))
-						return
+						rn.suspect(fmt.Sprintf("source fixture {%s} %s: %v", g, cfg[0], err))
+						s = nil
+					} else {
+						r.Count("source_fixtures_verified", 1)
 					}
-					r.Count("source_fixtures_verified", 1)
 				}
 				srcs[cfg[0]] = s
+			}
+			if s == nil {
+				// this source cannot be used; the other graphs and
+				// configurations are explored all the same
+				r.Count("sources_not_usable", 1)
+				continue
 			}
 			rn.search(sp, s, cfg[1], ops)
 		}
@@ -327,7 +381,8 @@ func (rn *runner) runSpace(sp space) {
 		progs = "CopyReference(obj 0) and Copy(value of obj 0); all objects reachable from obj 0"
 	}
 	r.Dim("space:"+sp.name, map[string]any{
-		"objects": sp.n, "alphabet": sp.alpha.name, "object_kinds": len(sp.alpha.kinds(sp.n)), "item_kinds": len(sp.alpha.itemList(sp.n)),
+		"objects": sp.n, "alphabet": sp.alpha.name, "object_kinds": len(sp.alpha.kinds(sp.n)),
+		"item_kinds": len(sp.alpha.itemList(sp.n)), "nested_item_kinds": len(sp.alpha.nestedList(sp.n)), "stale_references": sp.alpha.stale,
 		"graphs_up_to_isomorphism": n, "programs": progs, "configurations": cfgNames,
 		"executions": rn.evals() - e0, "wall_s": time.Since(t0).Seconds(),
 	})
@@ -357,6 +412,16 @@ var noAES256 = pairs(srcConfigs, tgtConfigs[:3])
 var encPairs = [][2]string{{"rc4-128", "1.7-aes128"}, {"aes-128", "2.0"}}
 var plainPair = [][2]string{{"none", "1.4"}}
 var noSeekPairs = [][2]string{{"none", tgtNoSeek}, {"aes-128", tgtNoSeek}}
+var rc4TgtPairs = pairs(srcConfigs, []string{tgtRC4})
+var rc4TgtPairs2 = [][2]string{{"none", tgtRC4}, {"aes-128", tgtRC4}}
+
+func join(ps ...[][2]string) [][2]string {
+	var out [][2]string
+	for _, p := range ps {
+		out = append(out, p...)
+	}
+	return out
+}
 
 var aes256Pairs = pairs(srcConfigs, tgtConfigs[3:])
 
@@ -366,25 +431,28 @@ var aes256Pairs = pairs(srcConfigs, tgtConfigs[3:])
 func spaces(r *ev.Run) []space {
 	if r.Thorough() {
 		return []space{
-			{name: "1obj-rich-depth3", alpha: rich, n: 1, depth: 3, dangOp: true, cfgs: append(append([][2]string{}, allPairs...), noSeekPairs...), verify: 1},
-			{name: "2obj-rich-depth3", alpha: rich, n: 2, depth: 3, dangOp: true, cfgs: plainPair, verify: 1},
+			{name: "1obj-rich-depth3", alpha: rich, n: 1, depth: 3, dangOp: true, staleOp: true, cfgs: join(allPairs, noSeekPairs, rc4TgtPairs), verify: 1},
+			{name: "2obj-rich-depth3", alpha: rich, n: 2, depth: 3, dangOp: true, staleOp: true, cfgs: plainPair, verify: 1},
 			{name: "3obj-lean-depth3", alpha: lean, n: 3, depth: 3, cfgs: plainPair, verify: 8},
+			{name: "3obj-lean+stale-depth2", alpha: leanStale, n: 3, depth: 2, cfgs: plainPair, verify: 8},
 			{name: "3obj-mid-depth2", alpha: mid, n: 3, depth: 2, cfgs: plainPair, verify: 64},
-			{name: "3obj-rich-rooted", alpha: rich, n: 3, rooted: true, cfgs: [][2]string{{"none", "1.4"}, {"aes-128", "1.7-aes128"}}, verify: 64},
-			{name: "2obj-rich-depth2-enc", alpha: rich, n: 2, depth: 2, dangOp: true, cfgs: encPairs, verify: 1},
+			{name: "3obj-mid+stale-rooted", alpha: midStale, n: 3, rooted: true, cfgs: plainPair, verify: 64},
+			{name: "3obj-rich-flat-rooted", alpha: richFlat, n: 3, rooted: true, cfgs: [][2]string{{"none", "1.4"}, {"aes-128", "1.7-aes128"}}, verify: 64},
+			{name: "2obj-rich-depth2-enc", alpha: richNested, n: 2, depth: 2, dangOp: true, cfgs: encPairs, verify: 1},
 			{name: "3obj-lean-depth2-enc", alpha: lean, n: 3, depth: 2, cfgs: encPairs, verify: 8},
-			{name: "2obj-rich-rooted", alpha: rich, n: 2, rooted: true, cfgs: append(append([][2]string{}, allPairs...), noSeekPairs...), verify: 1},
+			{name: "2obj-rich-rooted", alpha: richNested, n: 2, rooted: true, cfgs: join(allPairs, noSeekPairs, rc4TgtPairs), verify: 1},
 		}
 	}
 	return []space{
-		{name: "1obj-rich-depth3", alpha: rich, n: 1, depth: 3, dangOp: true, cfgs: append(append([][2]string{}, noAES256...), noSeekPairs...), verify: 1},
-		{name: "2obj-mid-depth3", alpha: mid, n: 2, depth: 3, dangOp: true, cfgs: plainPair, verify: 1},
+		{name: "1obj-rich-depth3", alpha: rich, n: 1, depth: 3, dangOp: true, staleOp: true, cfgs: join(noAES256, noSeekPairs, rc4TgtPairs), verify: 1},
+		{name: "2obj-mid+stale-depth3", alpha: midStale, n: 2, depth: 3, dangOp: true, staleOp: true, cfgs: plainPair, verify: 1},
 		{name: "3obj-lean-depth2", alpha: lean, n: 3, depth: 2, cfgs: plainPair, verify: 8},
+		{name: "3obj-lean+stale-rooted", alpha: leanStale, n: 3, rooted: true, cfgs: plainPair, verify: 8},
 		{name: "2obj-rich-depth2", alpha: rich, n: 2, depth: 2, dangOp: true, cfgs: plainPair, verify: 1},
 		{name: "3obj-mid-rooted", alpha: mid, n: 3, rooted: true, cfgs: [][2]string{{"none", "1.4"}, {"aes-128", "1.7-aes128"}}, verify: 64},
 		{name: "2obj-mid-depth2-enc", alpha: mid, n: 2, depth: 2, dangOp: true, cfgs: encPairs, verify: 1},
-		{name: "2obj-rich-rooted", alpha: rich, n: 2, rooted: true, cfgs: append(append([][2]string{}, noAES256...), noSeekPairs...), verify: 1},
-		{name: "1obj-rich-depth2-aes256", alpha: rich, n: 1, depth: 2, dangOp: true, cfgs: aes256Pairs, verify: 1},
+		{name: "2obj-rich-rooted", alpha: richNested, n: 2, rooted: true, cfgs: join(noAES256, noSeekPairs, rc4TgtPairs2), verify: 1},
+		{name: "1obj-rich-depth2-aes256", alpha: richNested, n: 1, depth: 2, dangOp: true, cfgs: aes256Pairs, verify: 1},
 	}
 }
 
@@ -429,13 +497,25 @@ func Run(tier string) int {
 	r.Rule("a case is (source graph up to isomorphism, program of Copy/CopyReference/Redirect calls, source configuration, target configuration); every case is executed from scratch with the real Writer, Reader and Copier, the target is closed, reopened and compared with the graph of the case description; states = distinct abstract copier states (which source references are translated, to a copy or to a redirect target) per graph and configuration, transitions = histories generated, traces = histories executed on the implementation (all of them); distinct non-trivial = distinct (graph, program) pairs in which at least one reference is translated")
 	r.Assume(
 		"source fixtures are written with pdf.Writer (streams with indirect /Length, /Filter, /DecodeParms through a thin export wrapper that emits the dictionary verbatim) and checked to read back as described",
-		"identity of a source object is the object a reference finally leads to; a reference that leads to no object is a null value; reference loops and chains that pass a redirected object are outside the statement (every outcome accepted)",
-		"the oracle was validated at start-up against an independent reference copier: accepted on every self-test case, and each of 10 planted flaws reported under its fingerprint",
+		"identity of a source object is the object a reference finally leads to; a reference that leads to no object (dangling, free, or the number of a live object with a wrong generation) is a null value; reference loops and chains that pass a redirected object are outside the statement (every outcome accepted)",
+		"the oracle was validated at start-up against an independent reference copier whose targets are described as data (no Writer, no Reader): accepted on every self-test case, and each planted flaw reported under its fingerprint (selftest_* entries); the same correct copies are also sent through the library's Writer and Reader, and a failure of that second part, of a source fixture or of a known witness counts as an infrastructure failure only if the exploration finds no violation (otherwise it is listed under machinery_failures_attributable_to_the_library)",
 		"non-termination is detected by bounding the number of reads from the source (see source_read_budget and max_source_reads_in_one_execution) and by a 20 s wall-clock watchdog whose suspects are re-run twice in a child process")
 
-	if err := selfTest(rn); err != nil {
+	// The oracle is tested without the library (targets described as data);
+	// if that fails the oracle is wrong and nothing it says can be believed.
+	if err := selfTestOracle(rn); err != nil {
 		r.Infra("oracle self-test: " + err.Error())
 		return r.Finish()
+	}
+	// The same correct copies sent through the library's Writer and Reader:
+	// a failure may be a defect of the library under test, so the exploration
+	// runs anyway and decides (see conclude).
+	if os.Getenv("VERIF_C11_SPACE") == "" {
+		if err := selfTestFiles(rn); err != nil {
+			msg := "self-test through files (reference copier > Writer > Reader > oracle): " + err.Error()
+			r.Dim("selftest_through_files_failed", msg)
+			rn.suspect(msg)
+		}
 	}
 
 	stop := rn.watchdog()
@@ -445,13 +525,19 @@ func Run(tier string) int {
 		var c Case
 		if json.Unmarshal(k.Witness, &c) == nil && c.Graph != "" {
 			if err := rn.runCase(c); err != nil {
-				r.Infra("known witness does not run: " + err.Error())
+				rn.suspect("known witness does not run: " + err.Error())
 			}
 		}
 	}
 
 	r.Dim("source_configurations", srcConfigs)
-	r.Dim("target_configurations", append(append([]string{}, tgtConfigs...), tgtNoSeek))
+	r.Dim("target_configurations", append(append([]string{}, tgtConfigs...), tgtNoSeek, tgtRC4))
+	r.Dim("item_kinds", map[string]string{
+		"i": "integer", "s": "string", "n": "null", "a": "[]", "d": "<<>>", "0 1 2": "reference to an object of the graph",
+		"x": "dangling reference (number beyond the xref)", "f": "reference to a free object",
+		"~0 ~1 ~2":            "stale reference: number of a live object, wrong generation (N 1 R while N 0 obj exists)",
+		"[s] <s> [0] <0> ...": "nested direct array / dictionary holding a string or a reference to an object of the graph",
+	})
 	r.Dim("stream_variants", stmNames)
 	for _, sp := range spaces(r) {
 		if r.Expired() || rn.hung.Load() {
@@ -468,6 +554,7 @@ func Run(tier string) int {
 	r.Dim("max_source_reads_in_one_execution", rn.maxReads.Load())
 	r.Dim("source_read_budget", getBudget)
 	rn.flush()
+	rn.conclude()
 	return r.Finish()
 }
 
@@ -488,6 +575,7 @@ func Replay(path string) int {
 		return 2
 	}
 	rn.flush()
+	rn.conclude()
 	return r.Finish()
 }
 
@@ -608,5 +696,6 @@ func CaseMain(args []string) int {
 		return 2
 	}
 	rn.flush()
+	rn.conclude()
 	return r.Finish()
 }
